@@ -6,12 +6,12 @@ cd /verif
 F=$1; shift
 [ -f fixes/$F.diff ] || { echo "no fixes/$F.diff"; exit 2; }
 git -C /repo diff --quiet || { echo "/repo has uncommitted changes"; exit 2; }
-git -C /repo apply --3way fixes/$F.diff || { echo "patch does not apply"; git -C /repo reset -q --hard; exit 2; }
+git -C /repo apply --3way /verif/fixes/$F.diff || { echo "patch does not apply"; git -C /repo reset -q --hard; exit 2; }
 git -C /repo reset -q   # 3way stages; unstage
 R=$(/venv/bin/python harness/baseline_check.py -n 8 | head -40)
 echo "$R" | head -3
 if ! echo "$R" | grep -q "missing=0"; then echo "SUITE REGRESSION - reverting"; git -C /repo checkout -q -- . ; git -C /repo clean -fdq; exit 1; fi
-git -C /repo add -A && git -C /repo commit -q -F fixes/$F.msg
+git -C /repo add -A && git -C /repo commit -q -F /verif/fixes/$F.msg
 H=$(git -C /repo rev-parse --short HEAD)
 git -C /repo show --format= HEAD > fixes/$F.diff
 sed -i "s/<COMMIT> $F\b/$H $F/; s/&lt;COMMIT&gt; $F\b/$H $F/" known_findings/*.json
